@@ -32,6 +32,9 @@ def plan(tier, seed):
     shards = [{"name": "util-%d" % p, "kind": "util", "n": n} for p in range(k)]
     shards += [{"name": "tasks-%d" % p, "kind": "tasks",
                 "n": 150 if tier == "quick" else 3000} for p in range(4)]
+    from . import w7
+    shards += w7.plan(tier, modules=["test_util.py", "test_segment.py", "test_chord.py"]
+                      + (["test_sonify.py"] if tier == "thorough" else []))
     return shards
 
 
@@ -179,7 +182,11 @@ def wl_tasks(spec, ctx, mods):
 def run_shard(spec, ctx):
     mods = env.load_repo()
     interval_mon.install(ctx, mods)
-    (wl_util if spec["kind"] == "util" else wl_tasks)(spec, ctx, mods)
+    if spec["kind"] == "w7":
+        from . import w7
+        w7.run(spec, ctx)
+    else:
+        (wl_util if spec["kind"] == "util" else wl_tasks)(spec, ctx, mods)
     n, problems = shim.fidelity_report()
     ctx.count("noninterference.shims_checked", n)
     if problems:
